@@ -2,8 +2,8 @@
 Model of the per-source clock filter of `ntp-proto/src/algorithm/kalman/source.rs`
 (`SourceFilter`, `InitialSourceFilter`, `SourceState`, `AveragingBuffer`, the two-way
 `KalmanSourceController`) on top of the generic kernel `Model/Kalman2` instantiated at `F64`.
-Mathlib-free.  NTP (two-way) sources only: `period = None` throughout (periodic one-way sources —
-PPS/sock — are outside this model).
+Mathlib-free.  Parts 1-3: NTP (two-way) sources, `period = None`.  Part 4: one-way sources (PPS/sock,
+`KalmanSourceController<(), FixedMeasurementNoise>`) with `period : Option<f64>`.
 
 Part 1 (integer logic with F64 comparisons; C10 filter half, shared with C06):
   PollInterval::{inc, dec, as_duration}                 pollInc, pollDec, pollAsDuration
@@ -431,5 +431,275 @@ def SState.freqSteer (st : SState) (time : Nat) (steer : F64) : Option SState :=
     let k := kFreqSteer f.k time steer f.wander
     let d ← durFromSeconds (steer * durToSeconds (tsSub time f.last.localtime))
     some (.stable { f with k := k, last := { f.last with offset := satI64 (f.last.offset + d) } })
+
+/-! ## Part 4: one-way (PPS / sock) sources — `KalmanSourceController<(), FixedMeasurementNoise>`
+with `period : Option<f64>`
+
+The periodicity `while` loops (`KalmanState::correct_periodicity`, the measurement correction closure of
+`SourceFilter::absorb_measurement`, `InitialSourceFilter::{update, correct_period}`) are modelled with an
+iteration budget (`Kalman2.iterWhile`); budget exhausted = `Outcome.fuel` = the real loop is still
+running (the number of iterations is about `|x| / period`, unbounded; for `x = ±∞` or `|x| ≥ 2^53·p` the
+real loop never ends).  Panic sites are `Outcome.panic` as before. -/
+
+inductive Outcome (α : Type) where
+  | ok (a : α)
+  | panic
+  | fuel
+deriving Repr
+
+def Outcome.bind {α β : Type} (o : Outcome α) (f : α → Outcome β) : Outcome β :=
+  match o with
+  | .ok a => f a
+  | .panic => .panic
+  | .fuel => .fuel
+
+instance : Monad Outcome where
+  pure := .ok
+  bind := Outcome.bind
+
+/-- an `Option` whose `none` is a panic -/
+def orPanic {α : Type} : Option α → Outcome α
+  | some a => .ok a
+  | none => .panic
+/-- an `Option` whose `none` is an exhausted loop budget -/
+def orFuel {α : Type} : Option α → Outcome α
+  | some a => .ok a
+  | none => .fuel
+
+/-- iteration budget of the periodicity loops in the executable model -/
+def LOOP_FUEL : Nat := 1000000
+
+def fgt (a b : F64) : Bool := F64.gt a b
+def flt (a b : F64) : Bool := F64.lt a b
+
+/-- `KalmanState::correct_periodicity` -/
+def correctPeriodicity (fuel : Nat) (k : KT) (period : Option F64) : Outcome KT :=
+  match period with
+  | none => .ok k
+  | some p => (orFuel (wrapVec fgt flt fuel k.s.x p)).bind fun x => .ok { k with s := { k.s with x := x } }
+
+/-- `KalmanState::progress_time` with a period (no correction when `time` is before the state's time) -/
+def progressTimeP (fuel : Nat) (k : KT) (time : Nat) (wander : F64) (period : Option F64) : Outcome KT :=
+  if isBefore time k.time then .ok k
+  else correctPeriodicity fuel
+    { s := progressCore k.s (durToSeconds (tsSub time k.time)) wander, time := time } period
+
+/-- Rust `f64 % f64` (C `fmod`): exact, sign of the dividend.  Long division by repeated exact
+    subtraction of `|y|·2^k` (Sterbenz), budgeted. -/
+def fmodDouble : Nat → F64 → F64 → F64
+  | 0, t, _ => t
+  | n + 1, t, r => if F64.le (t * (2 : F64)) r then fmodDouble n (t * (2 : F64)) r else t
+
+def fmodAbs : Nat → F64 → F64 → F64
+  | 0, r, _ => r
+  | n + 1, r, y => if F64.lt r y then r else fmodAbs n (r - fmodDouble 2200 y r) y
+
+def fmod (x y : F64) : F64 :=
+  if x.isNaN || y.isNaN || x.isInf || y.isZero then F64.nan
+  else if y.isInf then x
+  else
+    let r := fmodAbs 2200 x.abs y.abs
+    if x.signBit then -r else r
+
+/-- `FixedMeasurementNoise` -/
+structure FixedNoise where
+  precision : F64
+  accuracy : F64
+deriving Repr
+
+/-- `InternalMeasurement<()>` -/
+structure OMeas where
+  offset : Int
+  localtime : Nat
+  rootDelay : Int
+  rootDisp : Int
+deriving Repr
+
+/-- `SourceFilter<(), FixedMeasurementNoise>` -/
+structure OStable where
+  k : KT
+  wander : F64
+  noise : FixedNoise
+  precisionScore : Int
+  poll : PollState
+  last : OMeas
+  lastMono : Nat
+  prevWasOutlier : Bool
+  lastIter : Nat
+deriving Repr
+
+/-- `InitialSourceFilter<(), FixedMeasurementNoise>` -/
+structure OInitial where
+  noise : FixedNoise
+  initOffset : AvgBuf
+  last : Option OMeas
+  samples : Nat
+deriving Repr
+
+inductive OState where
+  | initial (f : OInitial)
+  | stable (f : OStable)
+deriving Repr
+
+def OState.new (n : FixedNoise) : OState :=
+  .initial { noise := n, initOffset := AvgBuf.default, last := none, samples := 0 }
+
+/-- `InitialSourceFilter::cur_avg` -/
+def curAvg (b : AvgBuf) (samples : Nat) : F64 :=
+  if samples = 0 then (0 : F64) else fsum (b.data.take samples) / F64.ofI64 samples
+
+/-- `InitialSourceFilter::correct_period` -/
+def correctPeriod (fuel : Nat) (b : AvgBuf) (samples : Nat) (period : Option F64) : Outcome AvgBuf :=
+  if samples = 0 then .ok b else
+  match period with
+  | none => .ok b
+  | some p =>
+    (orFuel (iterWhile (fun (b : AvgBuf) => fgt (curAvg b samples) (p / (2 : F64)))
+      (fun b => { b with data := b.data.map (· - p) }) fuel b)).bind fun b =>
+    orFuel (iterWhile (fun (b : AvgBuf) => flt (curAvg b samples) (-p / (2 : F64)))
+      (fun b => { b with data := b.data.map (· + p) }) fuel b)
+
+/-- `SourceFilter::update` for a one-way source -/
+def OStable.update (fuel : Nat) (f : OStable) (sc : SrcCfg) (ac : AlgoCfg) (period : Option F64)
+    (m : OMeas) (now : Nat) : Outcome (OStable × Bool) := do
+  let f := { f with last := { f.last with rootDelay := m.rootDelay, rootDisp := m.rootDisp } }
+  if isBefore m.localtime f.k.time then return (f, false)
+  let f := { f with lastIter := m.localtime }
+  -- `FixedMeasurementNoise::is_outlier` is always false
+  let k ← progressTimeP fuel f.k m.localtime f.wander period
+  let mDeltaT := durToSeconds (tsSub m.localtime f.last.localtime)
+  let r := f.noise.precision
+  -- measurement correction closure, then `KalmanState::absorb_measurement`
+  let prediction := sum2 ((1 : F64) * k.s.x.x0) ((0 : F64) * k.s.x.x1)
+  let z ← match period with
+    | none => Outcome.ok (durToSeconds m.offset)
+    | some p => orFuel (wrapValue fgt flt fuel (durToSeconds m.offset) prediction p)
+  let out := absorbCore k.s (1 : F64) (0 : F64) z r
+  let k' ← correctPeriodicity fuel { s := out.st, time := k.time } period
+  let p := chi1 out.chiArg
+  let weight := out.weight
+  let (ps, wander) ← orPanic (updateWanderEstimate f.precisionScore f.wander ac.wander p weight)
+  let poll ← orPanic (updateDesiredPoll f.poll ac.poll sc.lim p weight mDeltaT)
+  return ({ f with k := k', last := m, lastMono := now, precisionScore := ps, wander := wander,
+                   poll := poll }, true)
+
+/-- `InitialSourceFilter::update` + the promotion test, one-way source -/
+def OInitial.update (fuel : Nat) (f : OInitial) (sc : SrcCfg) (ac : AlgoCfg) (period : Option F64)
+    (m : OMeas) (now : Nat) : Outcome OState := do
+  let offset ← match period with
+    | none => Outcome.ok (durToSeconds m.offset)
+    | some p =>
+      let avg := curAvg f.initOffset f.samples
+      orFuel ((iterWhile (fun o => fgt (o - avg) (p / (2 : F64))) (fun o => o - p) fuel
+                (durToSeconds m.offset)).bind fun o =>
+              iterWhile (fun o => flt (o - avg) (-p / (2 : F64))) (fun o => o + p) fuel o)
+  let io := f.initOffset.update offset
+  let samples := f.samples + 1
+  let io ← correctPeriod fuel io samples period
+  if samples = Gen.KF_INIT_SAMPLES then
+    let k ← correctPeriodicity fuel
+      { s := { x := { x0 := io.mean, x1 := (0 : F64) }
+               P := { a00 := io.variance, a01 := (0 : F64), a10 := (0 : F64),
+                      a11 := sqr ac.initialFreqUncertainty } }
+        time := m.localtime } period
+    return .stable {
+      k := k
+      wander := sqr ac.initialWander
+      noise := f.noise
+      precisionScore := 0
+      poll := { score := 0, desired := sc.initial }
+      last := m
+      lastMono := now
+      prevWasOutlier := false
+      lastIter := m.localtime }
+  else
+    return .initial { noise := f.noise, initOffset := io, last := some m, samples := samples }
+
+/-- `SourceState::update_self_using_measurement`, one-way source -/
+def OState.update (fuel : Nat) (st : OState) (sc : SrcCfg) (ac : AlgoCfg) (period : Option F64)
+    (m : OMeas) (now : Nat) : Outcome (OState × Bool) := do
+  match st with
+  | .initial f =>
+    let st' ← f.update fuel sc ac period m now
+    return (st', true)
+  | .stable f =>
+    let localDiff := tsSub m.localtime f.last.localtime
+    let monoDiff := durFromSystemNanos (now - f.lastMono)
+    let ad ← orPanic (durAbsDiff localDiff monoDiff)
+    if ad > ac.meddlingThreshold then
+      -- `FixedMeasurementNoise::reset` returns itself
+      return (OState.new f.noise, false)
+    else
+      let (f', b) ← f.update fuel sc ac period m now
+      return (.stable f', b)
+
+/-- `SourceSnapshot` of a one-way source (with its `period`) -/
+structure OSnapshot where
+  snap : Snapshot
+  period : Option F64
+deriving Repr
+
+def one : F64 := F64.one
+
+/-- `SourceState::snapshot`, one-way source: `get_max_roundtrip = Some(1.0f64.max(accuracy))`,
+    `get_delay_mean = 4.0 * accuracy` -/
+def OState.snapshot (st : OState) (ac : AlgoCfg) (period : Option F64) : Option OSnapshot :=
+  match st with
+  | .initial f =>
+    match f.last with
+    | some last =>
+      if f.samples > 0 then
+        let mr := F64.max one f.noise.accuracy
+        some { period := period, snap :=
+          { k := { s := { x := { x0 := fsum (f.initOffset.data.take f.samples) / F64.ofI64 f.samples
+                                 x1 := (0 : F64) }
+                          P := { a00 := mr, a01 := (0 : F64), a10 := (0 : F64), a11 := hundred } }
+                   time := last.localtime }
+            wander := ac.initialWander
+            delay := mr
+            sourceUncertainty := last.rootDisp
+            sourceDelay := last.rootDelay
+            lastUpdate := last.localtime } }
+      else none
+    | none => none
+  | .stable f =>
+    some { period := period, snap :=
+           { k := f.k, wander := f.wander, delay := four * f.noise.accuracy,
+             sourceUncertainty := f.last.rootDisp, sourceDelay := f.last.rootDelay,
+             lastUpdate := f.lastIter } }
+
+def OState.desiredPoll (st : OState) (lim : Limits) : Int :=
+  match st with
+  | .initial _ => lim.min
+  | .stable f => f.poll.desired
+
+/-- `SourceState::process_offset_steering` with a period: `steer %= period` first -/
+def OState.offsetSteer (fuel : Nat) (st : OState) (steer : F64) (period : Option F64) : Outcome OState :=
+  let steer := match period with
+    | some p => fmod steer p
+    | none => steer
+  match st with
+  | .initial f => do
+    let io : AvgBuf := { f.initOffset with data := f.initOffset.data.map (· - steer) }
+    let io ← correctPeriod fuel io f.samples period
+    return .initial { f with initOffset := io }
+  | .stable f => do
+    let k ← orPanic (kOffsetSteer f.k steer)
+    let k ← correctPeriodicity fuel k period
+    let d ← orPanic (durFromSeconds steer)
+    return .stable { f with
+      k := k
+      last := { f.last with offset := satI64 (f.last.offset - d), localtime := tsAdd f.last.localtime d } }
+
+/-- `SourceState::process_frequency_steering`, one-way source -/
+def OState.freqSteer (fuel : Nat) (st : OState) (time : Nat) (steer : F64) (period : Option F64) :
+    Outcome OState :=
+  match st with
+  | .initial _ => .ok st
+  | .stable f => do
+    let k ← progressTimeP fuel f.k time f.wander period
+    let k := { k with s := { k.s with x := { x0 := k.s.x.x0 - (0 : F64), x1 := k.s.x.x1 - steer } } }
+    let d ← orPanic (durFromSeconds (steer * durToSeconds (tsSub time f.last.localtime)))
+    return .stable { f with k := k, last := { f.last with offset := satI64 (f.last.offset + d) } }
 
 end NtpVerif.SourceFilter
